@@ -18,6 +18,7 @@ func init() {
 const lpp = "(*internal/ingest.LineProtocolParser)."
 
 func runC01(c *Ctx) {
+	c01SameBatch(c)
 	c.Rule("C01.SUFFIX", "WHO: the row→column converters (ToFlatRecord, BatchToColumnar, rowsToColumnar) never name a tag-conflicting field's column by the bare concatenation name+`_value`; the name comes from a helper that extends the suffix in a loop while it is still a tag or another field — otherwise a point with tag a and fields a and a_value stores two fields in one column")
 	{
 		n := 0
